@@ -198,15 +198,26 @@ PROPS.update({
     "C13": {
         "title": "Filestore requests act as CFDP defines, once, in order, reported truthfully",
         "verus": [("recv", ["O-C13-"])],
-        "level": "proof",
-        "technique": "deductive verification (Verus/Z3) of a contract on the request loop of RecvTransaction::finalize_receive and on the functions that forward its responses",
+        "native": [{"prog": "fsreq_bounded", "quick": ["search", "@SANDBOX@", "quick"], "thorough": ["search", "@SANDBOX@", "thorough"], "obligation": "O-C13-effect-N",
+                    "fn": "FileStore::process_request (NativeFileStore)", "file": "cfdp-core/src/filestore.rs",
+                    "bound": "9 actions x 8 names (two files, a directory, a file in it, a missing name, three aliases of the first file) x 8 second names for the two-name actions, "
+                             "each on a fixed small tree and after one preceding request (a sample of them quick, all 240 thorough)"},
+                   {"prog": "recvreq_bounded", "quick": ["search", "3"], "thorough": ["search", "4"], "obligation": "O-C13-order-N",
+                    "fn": "RecvTransaction::finalize_receive (driven through process_pdu)", "file": "cfdp-daemon/src/transaction/recv.rs",
+                    "bound": "every list of <= 3 (4 thorough) requests over 8 request kinds, file-less acknowledged-mode transaction, Finished indication observed"}],
+        "level": "other",
+        "technique": "deductive verification (Verus/Z3) of a contract on the request loop of RecvTransaction::finalize_receive and on the functions that forward its responses; + BOUNDED native check of the effect of each request on a real directory tree",
         "design_ref": "DESIGN.md 4/C13",
         "level_text": "Partial, proof of function contracts on the RECEIVER: when finalize_receive gets as far as the filestore requests (checksum verified or the fault ignored, file "
                       "copied without rejection) it produces exactly one response per request, in the order of the metadata; each response is the result of executing its own request "
                       "as long as no earlier response reported a failure, and the not-performed response for its own request after the first failure (loop invariant over the real "
                       "loop; `failing_before` is the code's fail_rest flag); on every other path the recorded responses are untouched. The Finished PDU (prepare_finished) and the "
                       "Finished indication (precondition of send_indication at every call site) carry exactly the recorded responses (the cancel path reports an empty list). "
-                      "NOT decided: what FileStore::process_request does to the file system and which status it returns (live file-system state: no verifier here models it), "
+                      "BOUNDED (recvreq_bounded: the real receive transaction driven with Metadata + EOF for every short request list): the Finished indication carries one response "
+                      "per request, in order, executed up to the first failure and not-performed after it, and a request after the first failure has no effect on the tree - the "
+                      "stand-in for the loop contract when the loop has been restructured beyond what the extractor follows. BOUNDED (fsreq_bounded, the real NativeFileStore in a sandbox): over a small enumeration of requests a request that reports failure changes nothing, and one "
+                      "that reports success has exactly the effect defined for its action and no other. NOT decided: which status a failing request reports and whether a "
+                      "request whose preconditions hold always succeeds (would need a reference model of the status codes), "
                       "'once' across calls of finalize_receive (that finalisation itself runs once is C04), that the sender forwards the list to its user unchanged.",
         "level_note": VERUS_NOTE + "Three calls on the opaque filestore types are declared rewrites to stubs: process_request -> `executed(r, req)`, is_fail -> `failed(r)`, "
                       "not_performed -> `r == not_performed_of(req)`; `#[derive(Clone)]` of FileStoreResponse is ASSUMED to copy the value.",
